@@ -215,3 +215,34 @@ Section RootsP.
     destruct (Nat.leb_spec n i); [lia | exact I].
   Qed.
 End RootsP.
+
+(** * the reader goroutines *)
+Lemma np_magic_type payload : np (magic_type payload).
+Proof.
+  unfold magic_type. destruct (short 4 payload) eqn:E; [exact I|].
+  apply np_bind; [|intros; exact I].
+  apply np_slice_to. apply short_false_le in E. lia.
+Qed.
+
+Theorem conn_reader_step_total payload : np (conn_reader_step payload).
+Proof.
+  unfold conn_reader_step, conn_reader_step_gen.
+  apply np_bind; [apply np_magic_type|]. intros m.
+  destruct (N.eqb m MAGIC_TCP_PONG); cbn [andb].
+  - destruct (Nat.eqb_spec (length payload) 12) as [E | E].
+    + unfold slice_from. rewrite short_spec.
+      destruct (Nat.ltb_spec (length payload) 4); [lia|]. cbn [bind].
+      rewrite short_spec, skipn_length.
+      destruct (Nat.ltb_spec (length payload - 4) 8); [lia | exact I].
+    + destruct (N.eqb m MAGIC_TCP_AUTH_NONCE); exact I.
+  - destruct (N.eqb m MAGIC_TCP_AUTH_NONCE); exact I.
+Qed.
+
+Theorem client_reader_step_total known payload : bytes_ok payload -> np (client_reader_step known payload).
+Proof.
+  intros Hb. unfold client_reader_step.
+  apply np_bind; [apply np_magic_type|]. intros m.
+  destruct (negb _); [exact I|].
+  pose proof (process_query_answer_total known payload Hb) as H.
+  destruct (process_query_answer known payload); cbn in *; auto.
+Qed.
